@@ -247,7 +247,11 @@ func (r *revisionSyncer) getRevisionFromLeader() (uint64, error) {
 	}
 
 	revision := &LeaderRevision{}
-	json.Unmarshal(responseBody, revision)
+	if err := json.Unmarshal(responseBody, revision); err != nil {
+		// whatever answered is not the leader's status handler: there is no revision to adopt
+		r.metricCli.EmitCounter("follower.get.revision.err", 1, metrics.Tag("leader", leaderAddress))
+		return 0, fmt.Errorf("invalid revision answer from leader %s: %v", leaderAddress, err)
+	}
 	r.metricCli.EmitGauge("follower.get.revision", revision.Revision, metrics.Tag("leader", leaderAddress))
 	return revision.Revision, nil
 }
